@@ -208,7 +208,7 @@ def parse_constraint(data, repository_name, lockfile, wheel_dirs):
 
     url = data[-1].strip(" #")
     if not url.startswith(("http://", "https://", "file://")):
-        if wheel_dirs and url.startswith(*wheel_dirs):
+        if wheel_dirs and url.startswith(tuple(wheel_dirs)):
             # If the path is a relative parent, then we use the existing
             # lockfile label to create a clean label. This logic assumes
             # the wheeldir will be in a package (but not a package itself).
